@@ -293,7 +293,7 @@ prop('C19',
      'DESIGN.md 3.8 (UK1-UK4), 4 C19')
 
 prop('C20',
-     [RX.ck1, RX.ck4, RX.ck5, RX.ab4, OK.ok2, PS.ps1, R3.lc3, R3.ck6, R3.ck7, R4.ck8, R4.ck10, R4.rx7, R5.un1, R5.lc4, R6.und1, R6.ck13],
+     [RX.ck1, RX.ck4, RX.ck5, RX.ab4, OK.ok2, PS.ps1, R3.lc3, R3.ck6, R3.ck7, R4.ck8, R4.ck10, R4.rx7, R5.un1, R5.lc4, R6.und1, R6.ck13, R6.ck14, R6.ck15],
      'single-letter scan pattern has width 1 between word boundaries and letters only, accepted '
      'patterns are literal, the suppression test is beg <= position < end with the right '
      'strictness, offset and length come from one match (CK1); the equation-punctuation pattern '
